@@ -36,8 +36,8 @@ REF_IDENTITY = (
     "core::array::<impl [T; N]>::as_slice",
     "<std::vec::Vec<T, A> as std::ops::Deref>::deref",
     "<std::vec::Vec<T, A> as std::ops::DerefMut>::deref_mut",
-    "<sha1::digest::generic_array::GenericArray<T, N> as std::ops::Deref>::deref",
-    "<sha1::digest::generic_array::GenericArray<T, N> as std::ops::DerefMut>::deref_mut",
+    "<digest::generic_array::GenericArray<T, N> as std::ops::Deref>::deref",
+    "<digest::generic_array::GenericArray<T, N> as std::ops::DerefMut>::deref_mut",
 )
 MAX_DEPTH = 10
 
